@@ -414,19 +414,28 @@ def tasks():
 # C16 child: hash values under this interpreter's hash seed
 # --------------------------------------------------------------------------------------------
 def hashchild(inp: str, outp: str) -> None:
+    """in: [{id, ords: [tree in insertion order, ...]}];  out: [{id, obs: [[h, o, [ord, ...]], ...]}]
+    with identical (hash, iteration-order tree) observations of one value merged."""
     from redun.value import get_type_registry
 
     reg = get_type_registry()
     jobs = json.loads(open(inp).read())
     out = []
     for job in jobs:
+        uniq: dict = {}
         for oi, tree in enumerate(job["ords"]):
             obj = build(tree, "hash")
             try:
                 h = reg.get_hash(obj)
             except Exception as e:  # a value redun cannot hash at all: recorded, never equal to a hash
                 h = f"ERR:{type(e).__name__}"
-            out.append({"id": job["id"], "ord": oi, "h": h, "o": abstract(obj, "hash")})
+            o = abstract(obj, "hash")
+            key = (h, json.dumps(o, sort_keys=True))
+            if key in uniq:
+                uniq[key][2].append(oi)
+            else:
+                uniq[key] = [h, o, [oi]]
+        out.append({"id": job["id"], "obs": list(uniq.values())})
     open(outp, "w").write(json.dumps(out))
 
 
